@@ -9,11 +9,14 @@ Import ListNotations.
 Section Flow.
   Variables A C : Type.
   Variable tfb : block -> A -> option A.
-  Variable join : A -> A -> A.
+  Variable refine : term -> bool -> A -> A.
+  Variable join widen : A -> A -> A.
   Variable leq : A -> A -> bool.
   Variable term_ok : term -> A -> bool.
   Variable gamma : A -> C -> Prop.
   Variable bstep : block -> C -> C -> Prop.        (* concrete execution of a block body *)
+  Variable cond : term -> bool -> C -> Prop.       (* when may edge e (true = taken) of a terminator be followed *)
+  Hypothesis refine_sound : forall tm e a c, gamma a c -> cond tm e c -> gamma (refine tm e a) c.
   Hypothesis tfb_sound : forall b a a' c c',
     tfb b a = Some a' -> gamma a c -> bstep b c c' -> gamma a' c'.
   Hypothesis leq_sound : forall a b c, leq a b = true -> gamma a c -> gamma b c.
@@ -26,14 +29,16 @@ Section Flow.
       PM.find b cfg = Some blk -> bstep blk c c' -> succs (bt blk) = [] ->
       run cfg b c (bt blk) c'
   | run_step : forall b blk c c1 t tm c',
-      PM.find b cfg = Some blk -> bstep blk c c1 -> In t (succs (bt blk)) ->
+      PM.find b cfg = Some blk -> bstep blk c c1 -> forall e, In (e, t) (succs (bt blk)) ->
+      cond (bt blk) e c1 ->
       run cfg t c1 tm c' -> run cfg b c tm c'.
 
   Lemma verify_block : forall cfg init inv b blk a,
-    verify A tfb leq term_ok cfg init inv = true ->
+    verify A tfb refine leq term_ok cfg init inv = true ->
     PM.find b cfg = Some blk -> PM.find b inv = Some a ->
     exists out, tfb blk a = Some out /\ term_ok (bt blk) out = true /\
-      forall t, In t (succs (bt blk)) -> exists a', PM.find t inv = Some a' /\ leq out a' = true.
+      forall e t, In (e, t) (succs (bt blk)) ->
+        exists a', PM.find t inv = Some a' /\ leq (refine (bt blk) e out) a' = true.
   Proof.
     intros cfg init inv b blk a Hv Hc Hi.
     unfold verify in Hv. apply andb_true_iff in Hv. destruct Hv as [_ Hv].
@@ -43,32 +48,32 @@ Section Flow.
     destruct (tfb blk a) as [out|]; [|discriminate].
     apply andb_true_iff in Hv. destruct Hv as [H1 H2].
     exists out. split; [reflexivity|]. split; [exact H1|].
-    intros t Ht. rewrite forallb_forall in H2. specialize (H2 t Ht).
+    intros e t Ht. rewrite forallb_forall in H2. specialize (H2 (e, t) Ht). cbn [fst snd] in H2.
     destruct (PM.find t inv) as [a'|]; [|discriminate]. exists a'. auto.
   Qed.
 
   Lemma run_sound : forall cfg init inv,
-    verify A tfb leq term_ok cfg init inv = true ->
+    verify A tfb refine leq term_ok cfg init inv = true ->
     forall b c tm c', run cfg b c tm c' ->
     forall a, PM.find b inv = Some a -> gamma a c ->
     exists a', gamma a' c' /\ term_ok tm a' = true.
   Proof.
     intros cfg init inv Hv b c tm c' Hrun.
-    induction Hrun as [b blk c c' Hc Hs Hsucc | b blk c c1 t tm c' Hc Hs Ht Hrun IH]; intros a Hi Hg.
+    induction Hrun as [b blk c c' Hc Hs Hsucc | b blk c c1 t tm c' Hc Hs e Ht Hcond Hrun IH]; intros a Hi Hg.
     - destruct (verify_block _ _ _ _ _ _ Hv Hc Hi) as [out [H1 [H2 _]]].
       exists out. split; [eapply tfb_sound; eauto | exact H2].
     - destruct (verify_block _ _ _ _ _ _ Hv Hc Hi) as [out [H1 [_ H3]]].
-      destruct (H3 t Ht) as [a' [Ha' Hl]].
-      apply (IH a' Ha'). eapply leq_sound; [exact Hl|]. eapply tfb_sound; eauto.
+      destruct (H3 e t Ht) as [a' [Ha' Hl]].
+      apply (IH a' Ha'). eapply leq_sound; [exact Hl|]. apply refine_sound; auto. eapply tfb_sound; eauto.
   Qed.
 
   Theorem analyse_sound : forall f init,
-    analyse A tfb join leq term_ok f init = true ->
+    analyse A tfb refine join widen leq term_ok f init = true ->
     forall c tm c', gamma init c -> run (cfg_of f) 1%positive c tm c' ->
     exists a', gamma a' c' /\ term_ok tm a' = true.
   Proof.
     intros f init Han c tm c' Hg Hrun. unfold analyse in Han.
-    destruct (solve A tfb join leq _ (cfg_of f) _ _) as [inv|] eqn:Es; [|discriminate].
+    destruct (solve A tfb refine join widen leq _ (cfg_of f) _ _ _) as [inv|] eqn:Es; [|discriminate].
     pose proof Han as Hv. unfold verify in Han.
     apply andb_true_iff in Han. destruct Han as [H1 _].
     destruct (PM.find 1%positive inv) as [a1|] eqn:E1; [|discriminate].
